@@ -4,9 +4,9 @@ EXTENDS Throttle, Json, IOUtils, TLCExt
 VARIABLES tid, l
 Traces == JsonDeserialize(IOEnv.TRACE_FILE)
 TraceInit == /\ tid \in 1..Len(Traces) /\ l = 2 /\ TInitS(Traces[tid][1].tpb, Traces[tid][1].reset, Traces[tid][1].slack) /\ TLCSet(tid, 0)
-Step(e) == CASE e.ev = "WaitBegin" -> WaitBegin(e.k, e.te)
+Step(e) == CASE e.ev = "WaitBegin" -> WaitBegin(e.k, e.te, e.strm)
              [] e.ev = "WaitDone" -> WaitDone(e.k, e.tx)
-             [] e.ev = "Append" -> Account(e.t, e.ts, e.n)
+             [] e.ev = "Append" -> AccountBy(e.t, e.ts, e.n, e.strm)
              [] e.ev = "SetLimit" -> SetLimit(e.t, e.tpb)
              [] OTHER -> FALSE
 TraceNext == l <= Len(Traces[tid]) /\ Step(Traces[tid][l]) /\ l' = l + 1 /\ UNCHANGED tid
